@@ -6,7 +6,7 @@ from checks import _track as tr
 PID = "C06"
 RULE = (
     "all frame histories up to the depth bound over the frame alphabet (all (multi)sets of <= 2-3 droplet types incl. the empty frame) "
-    "x all tracker configurations {overlap, distance x max_dist in (inf,1.25,0.5,-1)} x {no grid, periodic grid} x time variants; "
+    "x all tracker configurations {overlap, distance x max_dist in (inf,1.25,0.5,0,-1)} x {no grid, periodic grid} x time variants; "
     "state = history; non-trivial = history contains >= 2 non-empty frames; every history is run on fresh objects"
     "; grids also with a non-zero lower bound and with mixed periodicity (non-periodic in 1-D); exactly representable (dyadic, 3-4-5) lattices on which contact is decidable; time variants incl. 1e5 + 0.5 k and k*1e-9; time courses continued by append() without a time (library-chosen stamps must stay strictly increasing)"
 )
@@ -32,7 +32,7 @@ def run_case(case, ctx):
     tags = {"method": cfg["method"], "grid": cfg["grid"]}
     etc, T, L, dim, times = tr.build(block, hist)
     snap = tr.snapshot(etc)
-    if block.get("how"):
+    if block.get("how") == "ctor+append":
         ctx.count("library-chosen-time-stamps")
         ok = all(b > a for a, b in zip(times, times[1:]))
         ctx.check("C06.times-increasing", ok, {"times": times, "what": "time course continued with append(emulsion) without a time"}, tags)
